@@ -216,6 +216,14 @@ func c06(r *rand.Rand, tier string, vseed int, tr *trace.Buf, tablePath string, 
 		if pl.seam {
 			idxs = []int{complete[0]} // the one leaf that is real
 		}
+		// every key also signs one LONG message (another code path for >= one block in some implementations)
+		longAt := -1
+		if last := idxs[len(idxs)-1]; last+1 < n && !pl.seam {
+			idxs = append(idxs, last+1)
+			longAt = last + 1
+		} else if pl.seam {
+			longAt = idxs[len(idxs)-1]
+		}
 		for _, i := range idxs {
 			if uint32(i) < x.GetIndex() {
 				continue
@@ -226,6 +234,9 @@ func c06(r *rand.Rand, tier string, vseed int, tr *trace.Buf, tablePath string, 
 			xmss.VerifHashHook = hook
 			msg := make([]byte, msgLens[msgNo%len(msgLens)])
 			msgNo++
+			if i == longAt {
+				msg = make([]byte, []int{4096, 4097, 10000, 5000}[(pi+vseed)%4])
+			}
 			r.Read(msg)
 			cur = nil
 			sig, err := x.Sign(msg)
